@@ -1,4 +1,5 @@
 (* name -> extracted entry point; one line per model *)
 let table : (string * (Model.sexp -> Model.sexp)) list = [
   "c12", Model.c12_check;
+  "c17", Model.c17_check;
 ]
